@@ -19,7 +19,7 @@ CLAIMED = {
             "BufferWriter->BufferReader with symbolic contents; every truncation point; WriteSizeCalculator agreement.",
             "DESIGN.md 3/C15",
             "capacity <= 4 (quick) / 6 (thorough) bytes; round-trip shapes: POD tuple, vector<int> 0..1 (2 thorough), AbstractArray<int> 0..2; "
-            "std::string / vector<string> payloads need the libstdc++ string model (unit stream_str when present); getView<T> only compiles for uint8_t; "
+            "std::string payloads of length <= 2 / 3 with every byte value (libstdc++ string model); vector<string> not covered; getView<T> only compiles for uint8_t; "
             "allocation never fails",
             "bounded model checking (cbmc) of LLVM-IR-derived C, native sanitizer replay"),
     "C04": ("other",
